@@ -45,6 +45,11 @@ def _cast_one(x, mode):
             if x.numel() == 0 or (int(x.min()) >= info.min and int(x.max()) <= info.max):
                 x = x.to(dt)
                 STATS[mode] = STATS.get(mode, 0) + 1
+        elif part in ("f16", "bf16") and x.dtype == torch.float32:
+            h = x.to(torch.float16 if part == "f16" else torch.bfloat16)
+            if bool((h.float() == x).all()):             # only numbers the half format holds exactly
+                x = h
+                STATS[mode] = STATS.get(mode, 0) + 1
         elif part == "rg" and x.is_floating_point():
             x = x.detach().clone().requires_grad_(True)          # a tensor that is part of an autograd graph (model output)
             STATS[mode] = STATS.get(mode, 0) + 1
